@@ -107,6 +107,9 @@ impl Prop for C16 {
     fn id(&self) -> &'static str {
         "C16"
     }
+    fn fuzz_target(&self) -> Option<&'static str> {
+        Some("fz_choices")
+    }
     fn stream_len(&self, _tier: Tier) -> usize {
         300
     }
